@@ -490,7 +490,7 @@ func report(eng *Engine, spec *PropSpec, tier string, seed int, start time.Time,
 		"paths_by_status":               pathsByStatus,
 		"functions_encoded":             fns,
 		"bounds":                        bound,
-		"engine_config":                 map[string]interface{}{"preemption_bound": eng.cfg.Preempt, "unwind": eng.cfg.Unwind, "alloc_cap": eng.cfg.AllocCap, "map_perm_max": eng.cfg.MapPermMax, "params": eng.cfg.Params, "query_timeout_ms": eng.cfg.TimeoutMs},
+		"engine_config":                 map[string]interface{}{"preemption_bound": eng.cfg.Preempt, "unwind": eng.cfg.Unwind, "alloc_cap": eng.cfg.AllocCap, "map_perm_max": eng.cfg.MapPermMax, "map_order_budget": eng.cfg.MapOrderBudget, "params": eng.cfg.Params, "query_timeout_ms": eng.cfg.TimeoutMs},
 		"max_preemptions_used":          maxPre,
 		"reach_witnesses":               reach,
 		"solver":                        solverStats,
